@@ -201,6 +201,7 @@ type Interp struct {
 	unknowns int
 	yieldFlag bool
 	ranges   map[string]uint64
+	noPreempt int
 }
 
 func (in *Interp) info(fn *ssa.Function) *fnInfo {
@@ -252,6 +253,7 @@ func (in *Interp) resetRun(prefix []int) {
 	in.failLabel = ""
 	in.objs = map[string]Value{}
 	in.ranges = nil
+	in.noPreempt = 0
 	in.raceOn = in.cfg.Race
 }
 
@@ -592,6 +594,18 @@ func (in *Interp) unwind(g *Goroutine) {
 func (in *Interp) startDefer(g *Goroutine, fr *Frame) {
 	d := fr.defers[len(fr.defers)-1]
 	fr.defers = fr.defers[:len(fr.defers)-1]
+	// deferred builtins/intrinsics run without a scheduling point (the defer record is
+	// already consumed, the instruction cannot be re-executed)
+	in.noPreempt++
+	defer func() {
+		in.noPreempt--
+		if r := recover(); r != nil {
+			if _, ok := r.(blockSignal); ok {
+				panic(pathEnd{kind: "unsupported", msg: "blocking intrinsic in a deferred call"})
+			}
+			panic(r)
+		}
+	}()
 	switch f := d.fn.(type) {
 	case BuiltinV:
 		in.builtin(g, f.b.Name(), d.args, nil)
@@ -1084,7 +1098,7 @@ func (in *Interp) execIndexAddr(g *Goroutine, fr *Frame, x *ssa.IndexAddr) {
 			in.goPanic(g, "nil", "nil pointer dereference (array index)", nil)
 			return
 		}
-		i := in.concretizeIndex(g, idx, len(b.c.sub), signed, "array")
+		i := in.concretizeIndex(g, idx, arrLen(b.c), signed, "array")
 		if i < 0 {
 			return
 		}
@@ -1149,7 +1163,7 @@ func (in *Interp) execSlice(g *Goroutine, fr *Frame, x *ssa.Slice) {
 			in.goPanic(g, "nil", "slice of nil array pointer", nil)
 			return
 		}
-		n := len(b.c.sub)
+		n := arrLen(b.c)
 		lo, _ := getI(x.Low, 0, n)
 		hi, _ := getI(x.High, n, n)
 		mx, _ := getI(x.Max, n, n)
@@ -1822,7 +1836,7 @@ func (in *Interp) builtin(g *Goroutine, name string, args []Value, c *ssa.CallCo
 			}
 			return tt.Const(64, uint64(len(x.buf)))
 		case Ptr:
-			return tt.Const(64, uint64(len(x.c.sub)))
+			return tt.Const(64, uint64(arrLen(x.c)))
 		case ArrayV:
 			return tt.Const(64, uint64(len(x.e)))
 		}
